@@ -233,6 +233,9 @@ func c03Scenario(c *choice.Ctx, rep *report.R, queries []c03Query) {
 	if len(rs) >= 1 {
 		r := rs[0]
 		if r == nil {
+			if t := own.Tainted(raw[0]); t != "" {
+				fail("tainted-response", "response contains "+t+" (and does not decode)")
+			}
 			fail("undecodable-response", fmt.Sprintf("%x", raw[0]))
 		} else {
 			for _, b := range c03CheckResponse(q.m, r, wantRcode) {
